@@ -12,8 +12,12 @@ def one_history(args):
     import random
     rng = random.Random(seed)
     hist, kinds = bc.gen_history(rng, nsteps)
+    mode = rng.choice(["dev", "dev", "dev-j4", "build"])
+    # in some histories every build is preceded by an invocation in the *other* mode in the same
+    # project directory (develop and release mode share the parse caches but not the workspaces)
+    premode = rng.choice([None, None, "build" if mode != "build" else "dev"])
     w = core.scratch_dir("c01")
-    rec = {"seed": seed, "kinds": kinds, "steps": [], "violations": [], "hist": hist}
+    rec = {"seed": seed, "kinds": kinds, "steps": [], "violations": [], "hist": hist, "mode": mode, "premode": premode}
     try:
         paths, digs = bc.Interner(), bc.Interner()
         projects = []
@@ -21,15 +25,17 @@ def one_history(args):
         for i, desc in enumerate(hist):
             proj.write_project(desc, w)
             roots = bc.roots_of(desc)
-            rc, txt = bc.bob(w, ["dev"] + roots)
+            if premode:
+                bc.bob(w, bc.MODES[premode] + roots)
+            rc, txt = bc.bob(w, bc.MODES[mode] + roots)
             if rc != 0:
                 rec["steps"].append({"i": i, "rc": rc, "rejected": True, "tail": txt[-400:]})
                 # a project state that does not parse/build is not a build of the history
                 if "Parse error" in txt or "rror" in txt:
                     continue
             dec = bc.decisions(txt)
-            res, ws = bc.results(w)
-            clean, ctxt = bc.clean_results(desc)
+            res, ws = bc.results(w, mode)
+            clean, ctxt = bc.clean_results(desc, mode=mode)
             step = {"i": i, "kind": kinds[i], "rc": rc, "decisions": len(dec),
                     "ran": sum(1 for d in dec if d[2] == "run"), "skipped": sum(1 for d in dec if d[2] == "skip"),
                     "pruned": sum(1 for d in dec if d[2] == "prune"), "packages": len(res)}
@@ -63,7 +69,7 @@ def one_history(args):
                 break
         # an immediately repeated build of the unchanged project
         if rec["steps"] and rec["steps"][-1].get("rc") == 0:
-            rc, txt = bc.bob(w, ["dev"] + bc.roots_of(hist[-1]))
+            rc, txt = bc.bob(w, bc.MODES[mode] + bc.roots_of(hist[-1]))
             dec = bc.decisions(txt)
             reran = [d for d in dec if d[2] == "run" and d[0] in ("BUILD", "PACKAGE")]
             reran_co = [d for d in dec if d[2] == "run" and d[0] == "CHECKOUT" and rec.get("det_src", {}).get(d[1], True)]
@@ -95,6 +101,7 @@ def run(ctx):
         for st in rec["steps"]:
             ctx.evaluated()
             ctx.count("build:" + ("rejected" if st.get("rejected") else "ok"))
+            ctx.count("mode:" + rec["mode"] + ("+interleaved-" + rec["premode"] if rec["premode"] else ""))
             if not st.get("rejected"):
                 ctx.count("edit:" + st["kind"])
                 ctx.count("steps-run", st["ran"]); ctx.count("steps-skipped", st["skipped"]); ctx.count("prunes", st["pruned"])
@@ -110,18 +117,19 @@ def run(ctx):
             projects, expected = rec["model"]
             inp = "[" + ";\n ".join(projects) + "]"
             exp = L.lst([L.lst(["(%d, %s)" % (p, L.B(b)) for p, b in sorted(e.items())]) if e else "(@nil (N * bool))" for e in expected])
-            cases.append((inp, "(%s : list (list (N * bool)))" % exp))
-            meta.append({"seed": rec["seed"], "kinds": rec["kinds"], "builds": len(projects)})
+            cfg = "release_cfg" if rec["mode"] == "build" else "dev_cfg"
+            cases.append(("(%s, %s)" % (cfg, inp), "(%s : list (list (N * bool)))" % exp))
+            meta.append({"seed": rec["seed"], "kinds": rec["kinds"], "builds": len(projects), "mode": rec["mode"]})
             ctx.count("model-histories")
         if len(ctx.cov["samples"]) < 3:
             ctx.sample({"seed": rec["seed"], "kinds": rec["kinds"], "steps": rec["steps"], "repeat": rec.get("repeat")})
-    bad, log = coq.run_cases(ctx, bc.REQUIRES, "(fun Ps => history_runs hash_poly dev_cfg Ps (fun _ => empty_slot))",
+    bad, log = coq.run_cases(ctx, bc.REQUIRES, "(fun i => history_runs hash_poly (fst i) (snd i) (fun _ => empty_slot))",
                              "history_agree", cases, shard=40, tag="c01")
     if bad is None:
         ctx.tie_broken("Builder model evaluation failed", log)
     else:
         ctx.validated(sum(m["builds"] for i, m in enumerate(meta) if i not in set(bad)))
         for i in bad[:5]:
-            vals, _ = coq.eval_terms(ctx, bc.REQUIRES, ["history_runs hash_poly dev_cfg %s (fun _ => empty_slot)" % cases[i][0]])
+            vals, _ = coq.eval_terms(ctx, bc.REQUIRES, ["(fun i => history_runs hash_poly (fst i) (snd i) (fun _ => empty_slot)) %s" % cases[i][0]])
             m = dict(meta[i]); m["model_runs"] = vals[0] if vals else None; m["observed_runs"] = cases[i][1]
             ctx.tie_broken("decision-correspondence", m)
